@@ -93,7 +93,7 @@ def parse_annotations(path, kind):
                     if "=" not in kv:
                         continue
                     k, v = kv.split("=", 1)
-                    if k in ("props", "feat", "fns", "flags"):
+                    if k in ("props", "feat", "fns", "flags", "feat_quick"):
                         cur[k] = [x for x in v.split(",") if x]
                     elif k == "heavy":
                         cur[k] = v in ("1", "true", "yes")
